@@ -23,4 +23,20 @@ CONFIG = {
         "quick": {"checks": 4000, "shards": 1},
         "thorough": {"checks": 60000, "shards": 4, "fuzz": [("FuzzBstInt8", 40), ("FuzzRing", 20)]},
     },
+    "C16": {
+        "rule": "one rapid property per exported stream helper and element type (int, float64): inputs of length 0-14 over small values with "
+                "zeros, negatives and ties, count/size parameters 0-16 (so that parameter > length is common), 1-3 inputs with independent "
+                "lengths in two thirds of the draws, input channel capacity 0-4, optional producer/consumer pacing masks. Oracle: a pure slice "
+                "function per helper, compared bit for bit; the pipeline must close every output, leave no goroutine behind (goroutine census) "
+                "and consume every input to its end (Head excepted by design). Non-trivial: empty input, or parameter >= input length, or "
+                "unequal input lengths (helper-specific rule for Duplicate, Seq, Since, Echo). Distinct = different (helper, type, inputs, parameters, capacity).",
+        "technique": "property-based testing (rapid) of each helper against a slice reference model, with a goroutine-census termination/leak oracle",
+        "level_text": "Every exported stream helper is run on generated inputs, parameters, unequal lengths and channel capacities and compared bit for bit with a slice function; termination, input consumption and goroutine leaks are decided by consistent goroutine snapshots, not timeouts. Sampling of a small-size space that is dense in the edge regimes (empty, parameter beyond length, unequal lengths).",
+        "level_note": "Trusts the slice models written from the helpers' doc comments. Domain restrictions: Last/Echo/Duplicate parameters >= 1, Echo memory <= input length, positive Seq increment, non-zero integer divisors, non-negative integer Sqrt inputs. Lengths <= 14, parameters <= 16.",
+        "assumptions": ["Head leaves the remaining input unread by design (Ema relies on it); its producer is given a channel large enough to finish",
+                        "helpers are exercised over int and float64 only"],
+        "gomaxprocs": [1, 1, 2, 4],
+        "quick": {"checks": 500, "shards": 8},
+        "thorough": {"checks": 12000, "shards": 16},
+    },
 }
